@@ -32,6 +32,9 @@ def shims():
     from mpf.core.mode import Mode
     Mode.__hash__ = lambda self: hash(("mode", self.name))
     symloop.install()
+    # diagnostics only: formats the whole handler list into a log line (CrossHair cannot deep-copy it); empty body
+    from mpf.core.events import EventManager
+    EventManager._verify_handlers = lambda self, event, sorted_handlers: None
     # TestClock.get_datetime calls datetime.fromtimestamp (C): with a symbolic clock hand out a duck-typed instant
     from mpf.tests import loop as tl
 
